@@ -121,7 +121,7 @@ package dmap
 //@   flag termination
 //@   requires #env: e != nil && e.putConfig != nil && e.fragment != nil && e.fragment.storage != nil && nt != nil
 //@   ensures #expire_keeps_value [C09]: e.putConfig.OnlyUpdateTTL && result == nil ==> old(e.fragment.storage.has)[e.hkey] &&
-//@                e.fragment.storage.ttl == update(old(e.fragment.storage.ttl), e.hkey, nt.ttl) &&
+//@                e.fragment.storage.ttl == update(old(e.fragment.storage.ttl), e.hkey, nt.ttl) && e.fragment.storage.ts == update(old(e.fragment.storage.ts), e.hkey, nt.timestamp) &&
 //@                e.fragment.storage.val == old(e.fragment.storage.val) && e.fragment.storage.key == old(e.fragment.storage.key) &&
 //@                e.fragment.storage.has == old(e.fragment.storage.has)
 //@   ensures #expire_missing [C09]: e.putConfig.OnlyUpdateTTL && !old(e.fragment.storage.has)[e.hkey] ==> result == ErrKeyNotFound
@@ -203,6 +203,7 @@ package dmap
 //@   requires #env: e != nil && e.putConfig != nil && e.fragment != nil && e.fragment.storage != nil && nt != nil
 //@   requires #parts: dm.s.parts() && dm.s.primary.count > 0 && dm.s.backup.count > 0
 //@   requires #encodable: len(nt.value) < 4294967296
+//@   requires #expire_ships_the_stored_value [C04]: e.putConfig.OnlyUpdateTTL && e.fragment.storage.has[e.hkey] ==> bstr(nt.value) == e.fragment.storage.val[e.hkey]
 //@   ensures #err_kind [C05]: result == nil || result == ErrWriteQuorum || result == ErrKeyTooLarge
 //@   ensures #key_too_large [C17]: (result == ErrKeyTooLarge) == (len(nt.key) >= 256)
 //@   ensures #nothing_shipped_truncated [C17]: len(nt.key) >= 256 ==> net_acks == old(net_acks) && e.fragment.storage.has == old(e.fragment.storage.has) &&
@@ -210,6 +211,9 @@ package dmap
 //@   ensures #ack_iff_quorum [C05] internal: (result == nil) == (net_acks - old(net_acks) + ite(err == nil, 1, 0) >= dm.s.config.WriteQuorum)
 //@   ensures #counted [C05] internal: successful == net_acks - old(net_acks) + ite(err == nil, 1, 0) && net_acks - old(net_acks) <= len(owners)
 //@   ensures #local_copy [C05]: (e.fragment.storage.has[e.hkey] || !old(e.fragment.storage.has)[e.hkey])
+//@   ensures #primary_holds_what_was_shipped [C04] internal: err == nil ==> e.fragment.storage.has[e.hkey] && e.fragment.storage.val[e.hkey] == bstr(nt.value) &&
+//@                e.fragment.storage.ttl[e.hkey] == nt.ttl && e.fragment.storage.ts[e.hkey] == nt.timestamp
+//@   ensures #shipped_is_the_entry [C04] internal: len(nt.key) < 256 ==> entry.encodes(elems(encodedEntry), off(encodedEntry), len(encodedEntry), nt.key, nt.ttl, nt.timestamp, nt.lastAccess, elems(nt.value), off(nt.value), len(nt.value))
 //@   loop 0 invariant #acks: successful == net_acks - old(net_acks) && 0 <= successful && successful <= rangeindex + 1 && rangeindex < len(owners)
 //@   loop 0 invariant #temporaries: onlyfresh()
 //@   loop 0 invariant #env_kept: e.fragment == old(e.fragment) && e.fragment.storage == old(e.fragment.storage) && e.putConfig == old(e.putConfig) && e.hkey == old(e.hkey)
@@ -261,7 +265,7 @@ package dmap
 //@                (!pre(e.fragment.storage.has)[e.hkey] || deadAt(pre(e.fragment.storage.ttl)[e.hkey], old(now()))) ==>
 //@                result != nil && e.fragment.storage.has == pre(e.fragment.storage.has) && e.fragment.storage.val == pre(e.fragment.storage.val) &&
 //@                e.fragment.storage.ttl == pre(e.fragment.storage.ttl)
-//@   modifies net_acks, e.fragment, e.timeout, EvictedTotal.counter, EntriesTotal.counter, DeleteHits.counter, GetMisses.counter, every(e.fragment.storage.has), every(e.fragment.storage.key),
+//@   modifies net_acks, e.fragment, e.timeout, e.value, EvictedTotal.counter, EntriesTotal.counter, DeleteHits.counter, GetMisses.counter, every(e.fragment.storage.has), every(e.fragment.storage.key),
 //@            every(e.fragment.storage.val), every(e.fragment.storage.ttl), every(e.fragment.storage.ts), every(e.fragment.storage.la),
 //@            every(e.fragment.storage.count), every(e.fragment.storage.inuse)
 
@@ -613,3 +617,18 @@ package dmap
 //@   loop 0 invariant #others: old(name in s.dmaps) ==> forall p uint64, n string {s.primary.m[p].frags[n]} {s.backup.m[p].frags[n]} :: p < s.config.PartitionCount && n != old(s.dmaps[name]).fragmentName ==>
 //@                s.primary.m[p].frags[n] == old(s.primary.m[p].frags)[n] && s.backup.m[p].frags[n] == old(s.backup.m[p].frags)[n]
 //@   loop 0 decreases s.config.PartitionCount - partID
+
+// ---------------------------------------------------------------------------------------------------
+// C04: a backup owner stores the bytes it is sent (an encoded entry) under the hashed key of (dmap, key).
+//@ func (dm *DMap) putOnReplicaFragment(e *env) error
+//@   props C04
+//@   flag termination
+//@   flag wired 3
+//@   requires #env: e != nil && dm.s.parts() && dm.s.primary.count > 0 && dm.s.backup.count > 0
+//@   requires #payload_is_an_entry [C04]: entry.wfAt(elems(e.value), off(e.value), len(e.value))
+//@   ensures #mirrors_the_payload [C04]: result == nil ==> e.fragment != nil && e.fragment.storage.has[e.hkey] &&
+//@                e.fragment.storage.key[e.hkey] == bstrAt(elems(e.value), off(e.value)+1, e.value[0]) && e.fragment.storage.ttl[e.hkey] == int64(be64(e.value, 1+e.value[0])) &&
+//@                e.fragment.storage.ts[e.hkey] == int64(be64(e.value, 9+e.value[0])) &&
+//@                e.fragment.storage.val[e.hkey] == bstrAt(elems(e.value), off(e.value)+29+e.value[0], be32(e.value, 25+e.value[0]))
+//@   modifies e.fragment, EntriesTotal.counter, every(e.fragment.storage.has), every(e.fragment.storage.key), every(e.fragment.storage.val), every(e.fragment.storage.ttl),
+//@            every(e.fragment.storage.ts), every(e.fragment.storage.la), every(e.fragment.storage.count), every(e.fragment.storage.inuse)
